@@ -85,8 +85,13 @@ def eval_stmt(d, ref, ref_cache, stmt, dbname='d', timeout=30):
     approx = stmt.get('approx', False)
     eng = norm_rows(r['rows'], approx)
     detail = {'engine_rows': r['rows'], 'cols': r.get('cols'), 'plan': r.get('plan'), 'batch_schemas': r.get('batch_schemas'), 'spilled': r.get('spilled', 0)}
+    if stmt.get('textual'):
+        # value-preserving up to the spelling of the type: 1 may come back as '1'
+        eng = [tuple(None if c is None else str(c) for c in row) for row in eng]
     if 'expect_rows' in stmt:
         ref_rows = norm_rows(stmt['expect_rows'], approx)
+        if stmt.get('textual'):
+            ref_rows = [tuple(None if c is None else str(c) for c in row) for row in ref_rows]
         if stmt.get('xref'):
             try:
                 if stmt['xref'] not in ref_cache:
